@@ -87,4 +87,19 @@ def rectifyingRadiusSeries (a f : α) : α :=
 def authalicRadiusSqSeries (a f : α) : α :=
   a * (a + ctorB a f) / (2 : α) * polyval (Gen.AuxSeries.authRadius.map ofRat) (ctorN f)
 
+/-! ### the Horner forms of Carlson's final series (used by `Model/RhumbExact.lean`, C09; the model of `EllipticFunction`
+itself is `Model/Elliptic.lean`, whose `rfTail`/`rjTail` are the same expressions) -/
+
+/-- numerator polynomial of `RF` (DLMF 19.36.1 in Horner form, as in the code) -/
+def rfTail (E2 E3 : α) : α :=
+  (E3 * ((6930 : α) * E3 + E2 * ((15015 : α) * E2 - (16380 : α)) + (17160 : α)) +
+    E2 * (((10010 : α) - (5775 : α) * E2) * E2 - (24024 : α)) + (240240 : α))
+
+/-- numerator polynomial shared by `RD` and `RJ` (DLMF 19.36.2 in Horner form) -/
+def rjTail (E2 E3 E4 E5 : α) : α :=
+  (((471240 : α) - (540540 : α) * E2) * E5 +
+    ((612612 : α) * E2 - (540540 : α) * E3 - (556920 : α)) * E4 +
+    E3 * ((306306 : α) * E3 + E2 * ((675675 : α) * E2 - (706860 : α)) + (680680 : α)) +
+    E2 * (((417690 : α) - (255255 : α) * E2) * E2 - (875160 : α)) + (4084080 : α))
+
 end GeoVerif.AuxLat
